@@ -6,6 +6,7 @@ package symgo
 import (
 	"fmt"
 	"go/token"
+	"sort"
 	"go/types"
 	"strings"
 
@@ -578,4 +579,91 @@ func init() {
 		return iface{}
 	}
 	harnessExternals["vFileClosed"] = func(fr *frame, args []value) value { return cur.fileClosed }
+}
+
+// sync.Map: contract model as a per-path table (keys are concretised), so that caches a change
+// may introduce are executed rather than faulting inside sync/atomic's unsafe pointer code.
+type syncMapKey struct {
+	t string
+	v interface{}
+}
+
+func smKey(k value) syncMapKey {
+	it, ok := k.(iface)
+	if !ok {
+		return syncMapKey{"?", fmt.Sprint(k)}
+	}
+	v := concKey(it.v)
+	switch v.(type) {
+	case string, bool, int, int8, int16, int32, int64, uint, uint8, uint16, uint32, uint64, uintptr, *value:
+		return syncMapKey{fmt.Sprint(it.t), v}
+	}
+	return syncMapKey{fmt.Sprint(it.t), fmt.Sprintf("%v", v)}
+}
+
+func init() {
+	tbl := func(p *value) map[syncMapKey][2]value {
+		if cur.syncMaps == nil {
+			cur.syncMaps = map[*value]map[syncMapKey][2]value{}
+		}
+		m := cur.syncMaps[p]
+		if m == nil {
+			m = map[syncMapKey][2]value{}
+			cur.syncMaps[p] = m
+		}
+		return m
+	}
+	externals["(*sync.Map).Load"] = func(fr *frame, args []value) value {
+		cur.stubsUsed["sync.Map"] = true
+		if e, ok := tbl(args[0].(*value))[smKey(args[1])]; ok {
+			return tuple{e[1], true}
+		}
+		return tuple{iface{}, false}
+	}
+	externals["(*sync.Map).Store"] = func(fr *frame, args []value) value {
+		cur.stubsUsed["sync.Map"] = true
+		tbl(args[0].(*value))[smKey(args[1])] = [2]value{args[1], args[2]}
+		return nil
+	}
+	externals["(*sync.Map).LoadOrStore"] = func(fr *frame, args []value) value {
+		cur.stubsUsed["sync.Map"] = true
+		m := tbl(args[0].(*value))
+		k := smKey(args[1])
+		if e, ok := m[k]; ok {
+			return tuple{e[1], true}
+		}
+		m[k] = [2]value{args[1], args[2]}
+		return tuple{args[2], false}
+	}
+	externals["(*sync.Map).Delete"] = func(fr *frame, args []value) value {
+		delete(tbl(args[0].(*value)), smKey(args[1]))
+		return nil
+	}
+	externals["(*sync.Map).LoadAndDelete"] = func(fr *frame, args []value) value {
+		m := tbl(args[0].(*value))
+		k := smKey(args[1])
+		if e, ok := m[k]; ok {
+			delete(m, k)
+			return tuple{e[1], true}
+		}
+		return tuple{iface{}, false}
+	}
+	externals["(*sync.Map).Range"] = func(fr *frame, args []value) value {
+		m := tbl(args[0].(*value))
+		keys := make([]string, 0, len(m))
+		byS := map[string]syncMapKey{}
+		for k := range m {
+			s := fmt.Sprint(k)
+			keys = append(keys, s)
+			byS[s] = k
+		}
+		sort.Strings(keys)
+		for _, s := range keys {
+			e := m[byS[s]]
+			if r, ok := call(fr.i, fr, 0, args[1], []value{e[0], e[1]}).(bool); ok && !r {
+				break
+			}
+		}
+		return nil
+	}
 }
